@@ -160,17 +160,40 @@ func (u *Universe) Solve(o *Obligation, dir string, timeoutS int, thorough bool)
 	}
 	ctx, cancel := context.WithCancel(context.Background())
 	defer cancel()
-	// stage 1: z3-new alone, short
+	// stage 1: z3-new in its default and its e-matching configuration, short
 	quickT := min(timeoutS, 3)
-	st, out, ms := runSolver(ctx, solvers[0], fz, quickT)
-	res.All["z3-new"] = st
-	if (st == "unsat" || st == "sat") && !thorough {
-		res.Status, res.Backend, res.Ms, res.Output = st, "z3-new", ms, out
-		if st == "sat" {
-			res.Model = out
-		}
-		return res
+	type a1 struct {
+		name, st, out string
+		ms            int64
 	}
+	c1 := make(chan a1, 2)
+	ctx1, cancel1 := context.WithCancel(ctx)
+	for i, nm := range []string{"z3-new", "z3-new/ematch"} {
+		i, nm := i, nm
+		go func() {
+			s, o2, m := runSolver(ctx1, solvers[i], fz, quickT)
+			c1 <- a1{nm, s, o2, m}
+		}()
+	}
+	var st, out string
+	var ms int64
+	for k := 0; k < 2; k++ {
+		a := <-c1
+		res.All[a.name] = a.st
+		if (a.st == "unsat" || (a.st == "sat" && a.name == "z3-new")) && !thorough {
+			cancel1()
+			res.Status, res.Backend, res.Ms, res.Output = a.st, a.name, a.ms, a.out
+			if a.st == "sat" {
+				res.Model = a.out
+			}
+			return res
+		}
+		if a.name == "z3-new" {
+			st, out, ms = a.st, a.out, a.ms
+		}
+	}
+	cancel1()
+	_ = st
 	// stage 2: race all back ends, plus sliced variants (dropping assumptions is sound: it can only lose proofs)
 	os.WriteFile(fc, []byte(u.smtText(o, true, true)), 0o644)
 	type variant struct {
